@@ -107,13 +107,13 @@ PROPS = {
         "trusted": ["T1", "T4", "T8", "T11", "T12", "T13", "T13s", "TLOG", "TBUF", "TARC", "RW", "DERIVE"],
         "assumptions": [
             "start-up is specified independently of the code as spec_recover(w) = fold over the directory log (files in ascending id order, hint file instead of data file where one exists; a value binds, a tombstone unbinds); rebuild_storage is proved to compute exactly it, and put / delete / rollover are proved to keep spec_recover(w) == key directory",
-            "Bitcask::open itself (rebuild_storage + create the next data file + thread spawn) is not extracted; creating the fresh empty active file is covered by lemma_log_new_file (C02.rollover.log_unchanged)",
+            "Bitcask::open is verified verbatim (rules: R-arc for values -- Arc::new(x) is x, an Arc clone is an equal value --, the reader pool is created in the World, R-thread replaces the spawn of the background thread by a shim without effect on the World): the Handle it returns denotes exactly the recovered map (C02.open.recovered_map: hmodel == recover_model of the directory it found), its Writer satisfies the invariant every operation requires, the pool is full and non-empty (ArrayQueue::new would panic on capacity 0: C02.open.pool_capacity_positive), the statistics are exact (C19.open.exact), exactly one fresh empty data file with an id above every id ever used is created (C14.open.one_new_empty_file), and the directory log is unchanged, so start-up would compute the same key directory again (C02.open.log_unchanged). Together with C01.handle.* / C02.*.recoverable this closes 'reopen reads what was there at close' at the level of the public Handle. Precondition: a well-formed directory with consistent hint files whose highest id ever used still exists (C14.ids.top_kept) or that is empty. NOT covered: the background thread (its merges / syncs are Handle operations like any other), Drop for Bitcask, Config::open (a one-line call of Bitcask::open)",
             "merges: that a merge keeps spec_recover == key directory is C05's obligation, not claimed here",
             "hint files are assumed consistent (hints_ok) at open; merge is proved to establish this (C12)",
         ],
     },
     "C04": {
-        "units": ["store", "log"], "label_prefixes": ["C04.", "C01.read.exact", "C01.reader.at_exact"], "level": "proof",
+        "units": ["store", "log"], "label_prefixes": ["C04.", "C01.read.exact", "C01.reader.at_exact", "C02.open.usable", "C02.open.pool_capacity_positive"], "level": "proof",
         "trusted": ["T1", "T4", "T8", "T11", "T12", "T13", "T13s", "TLOG", "TARC", "RW", "DERIVE"] + ["T9", "T10"],
         "assumptions": [
             "SCOPE: only the sequential rely/guarantee obligations are machine-checked: every key-directory entry published by put / merge names a complete, flushed record (Index at every guard release, C04.*.valid_location at every read/copy), LogReader's slice is in bounds after the conditional re-map whenever the FILE is long enough (C04.reader.slice_in_bounds), append flushes before returning (C04.append.flushed_before_ack), Handle::get returns its reader to the pool on every path and the `expect` on push cannot fail (C04.get.pool_preserved)",
